@@ -2,6 +2,7 @@
 #pragma once
 #include <unistd.h>
 #include <atomic>
+#include <cstring>
 #include <cstdio>
 #include <string>
 #include "common.h"
@@ -46,15 +47,17 @@ inline void installStuckHandler() {
 // scheduling points and appear in the trace. Lifetimes are counted (plain counters: only one
 // thread runs at a time under dsched).
 struct AtomPayload {
-  static long& live() { static long l = 0; return l; }
-  static long& constructed() { static long l = 0; return l; }
+  // lifetime ledger, kept in the runtime (see dsched::ghostAdd)
+  static long live() { return dsched::ghostGet(0); }
+  static long constructed() { return dsched::ghostGet(1); }
+  static void born() { dsched::ghostAdd(0, 1); dsched::ghostAdd(1, 1); }
   std::atomic<int> v;
-  AtomPayload() { v.store(-2, std::memory_order_relaxed); ++live(); ++constructed(); }
-  explicit AtomPayload(int x) { v.store(x, std::memory_order_relaxed); ++live(); ++constructed(); }
+  AtomPayload() { v.store(-2, std::memory_order_relaxed); born(); }
+  explicit AtomPayload(int x) { v.store(x, std::memory_order_relaxed); born(); }
   AtomPayload(AtomPayload&& o) noexcept {
-    v.store(o.v.exchange(-1, std::memory_order_relaxed), std::memory_order_relaxed); ++live(); ++constructed();
+    v.store(o.v.exchange(-1, std::memory_order_relaxed), std::memory_order_relaxed); born();
   }
-  AtomPayload(const AtomPayload& o) { v.store(o.v.load(std::memory_order_relaxed), std::memory_order_relaxed); ++live(); ++constructed(); }
+  AtomPayload(const AtomPayload& o) { v.store(o.v.load(std::memory_order_relaxed), std::memory_order_relaxed); born(); }
   AtomPayload& operator=(AtomPayload&& o) noexcept {
     v.store(o.v.exchange(-1, std::memory_order_relaxed), std::memory_order_relaxed);
     return *this;
@@ -63,7 +66,15 @@ struct AtomPayload {
     v.store(o.v.load(std::memory_order_relaxed), std::memory_order_relaxed);
     return *this;
   }
-  ~AtomPayload() { --live(); }
+  // The destructor is a scheduling point (an atomic op on a dummy that is never traced) and then
+  // scribbles the "destroyed" marker with a plain write: a destructor that runs late on a slot that
+  // has meanwhile been re-constructed corrupts the new element, which the oracles then see.
+  static std::atomic<int>& dummy() { static std::atomic<int> d{0}; return d; }
+  ~AtomPayload() {
+    dummy().fetch_add(1, std::memory_order_relaxed);
+    { int m = -3; std::memcpy(static_cast<void*>(&v), &m, sizeof m); }
+    dsched::ghostAdd(0, -1);
+  }
   int get() const { return v.load(std::memory_order_relaxed); }
 };
 
